@@ -26,7 +26,7 @@ def register(add):
         note=ABS + '. Returned size = number of DIVQ steps until zero + sign + NUL (2 for zero; radix 2: bit length); invalid radix: error and 0; the dividend handed to every step is '
         'non-negative and the divisor is the radix', **common)
     add('bn_write_str@w8', ['C07', 'C08'], 'bn_write_str', sources=[UTIL, MEM, RUTIL], decls='bn_st *a; char *str; size_t len; uint_t radix;', call='bn_write_str(str, len, a, radix)',
-        replace=['bn_size_str', 'bn_is_zero', 'bn_copy', 'bn_div_rem_dig/bn_div_rem_dig_s', 'bn_grow', 'bn_trim'], unwind=14,
+        replace=['bn_size_str/bn_size_str_v', 'bn_is_zero', 'bn_copy', 'bn_div_rem_dig/bn_div_rem_dig_s', 'bn_grow', 'bn_trim'], unwind=14,
         bound_note='|a| < 2^5 (every chain of 1..5 abstract division steps, both signs, zero), every radix, exact-size buffers of 0..8 bytes; loops unwound completely',
         note=ABS + '. Character k from the right = table character of DIVR(DIVQ^k(|a|)), most significant first, "-" first, NUL, exactly bn_size_str bytes written, the rest of the buffer '
         'untouched; too small a buffer / invalid radix: error before any write', **common)
